@@ -1288,12 +1288,12 @@ pub fn sweep(prop: &str, seed: u64, exhaustive_n: usize, random: usize, nmax: us
             ROOT0_ONLY.with(|c| c.set(false));
         }
         if prop == "C15" {
-            for _ in 0..(if directed { random } else { 5 * random }) {
+            for _ in 0..(if directed { random } else { 12 * random }) {
                 let ag = if directed { layered_flow_ag(&mut rng) } else { blossom_ag(&mut rng) };
                 f(out, &ag, &mut rng);
             }
             if !directed {
-                for _ in 0..2 * random {
+                for _ in 0..5 * random {
                     let ag = blossom_big_ag(&mut rng);
                     f(out, &ag, &mut rng);
                 }
